@@ -103,9 +103,15 @@ class Check:
                 self.corr_broken.append(("build", "-", "-", e.what + "\n" + e.output[-1500:], ""))
 
     # ---------------------------------------------------------------- correspondence
-    def correspond(self, op, cases, keys=None, rtol=1e-9, skip_keys=()):
+    def correspond(self, op, cases, keys=None, rtol=1e-9, skip_keys=(), drift=False):
         """run implementation and model on the same case lines and compare.
-        Returns (impl_outputs, model_outputs).  Disagreements go to self.corr_broken."""
+        Returns (impl_outputs, model_outputs).  Disagreements go to self.corr_broken — unless `drift`: a
+        whole-call comparison made by a property that is not about the numbers of a whole call (locality rule,
+        DESIGN.md section 3): then a disagreement is recorded in the evidence as model drift and the property
+        is judged by its own component correspondences and by its monitors on the implementation's outputs."""
+        broken = self.corr_broken
+        if drift:
+            broken = []
         if not cases or self.bdir is None:
             return {}, {}
         try:
@@ -116,7 +122,7 @@ class Check:
         try:
             mo = C.run_model(cases)
         except C.BuildError as e:
-            self.corr_broken.append((op, "-", "-", e.what + e.output, ""))
+            broken.append((op, "-", "-", e.what + e.output, ""))
             mo = {}
         io, crashes = C.run_impl(self.bdir, cases)
         st = self.cov["correspondence"].setdefault(op, {"cases": 0, "fields_exact": 0, "fields_tol": 0, "fields_diff": 0})
@@ -129,10 +135,10 @@ class Check:
                 continue  # crashed: reported above
             st["cases"] += 1
             if b is None:
-                self.corr_broken.append((op, cid, "-", "model produced no output", line))
+                broken.append((op, cid, "-", "model produced no output", line))
                 continue
             if "harnesserror" in a or "modelerror" in b:
-                self.corr_broken.append((op, cid, "-", "protocol error impl=%s model=%s" % (a.get("harnesserror"), b.get("modelerror")), line))
+                broken.append((op, cid, "-", "protocol error impl=%s model=%s" % (a.get("harnesserror"), b.get("modelerror")), line))
                 continue
             ks = keys(a, b) if callable(keys) else (keys or sorted(set(a) | set(b)))
             for k in ks:
@@ -140,7 +146,7 @@ class Check:
                     continue
                 if k not in a or k not in b:
                     st["fields_diff"] += 1
-                    self.corr_broken.append((op, cid, k, "field missing: impl=%s model=%s" % (k in a, k in b), line))
+                    broken.append((op, cid, k, "field missing: impl=%s model=%s" % (k in a, k in b), line))
                     continue
                 r = C.cmp_tokens(a[k], b[k], rtol=rtol)
                 if r == "exact":
@@ -149,8 +155,14 @@ class Check:
                     st["fields_tol"] += 1
                 else:
                     st["fields_diff"] += 1
-                    self.corr_broken.append((op, cid, k, "impl=%s model=%s" % (short(a[k]), short(b[k])), line))
+                    broken.append((op, cid, k, "impl=%s model=%s" % (short(a[k]), short(b[k])), line))
         self.cov["evaluations"] += len(cases)
+        if drift and broken:
+            st["model_drift"] = st.get("model_drift", 0) + len(broken)
+            ex = self.cov.setdefault("model_drift_examples", [])
+            for b in broken[:3]:
+                if len(ex) < 6:
+                    ex.append({"op": b[0], "case_id": b[1], "field": b[2], "detail": b[3][:300]})
         return io, mo
 
     def on_crash(self, op, cid, line, err, rc):
